@@ -69,6 +69,11 @@ def gen_cases(tier, seed):
         pats7 = ["".join(rnd.choice("FFFT") for _ in range(rnd.randint(0, 8))) for _ in range(nsamp)]
         pats7 = [p + "S" if len(p) <= 7 else p for p in pats7]
         cases.append({"kind": kind, "policy": "linear", "rec": False, "N": 7, "patterns": pats7, "mode": "ladder", "seed": rnd.randrange(10**6)})
+    # recurring jobs whose period is SHORTER than their retry back-off: the retry still waits for the back-off, not for the
+    # next slot of the period
+    for kind in kinds:
+        for pol, N in (("lambda", 2), ("linear", 3)):
+            cases.append({"kind": kind, "policy": pol, "rec": True, "N": N, "patterns": patterns(N)[:6] if tier == "quick" else patterns(N), "mode": "ladder", "seed": rnd.randrange(10**6), "period": 1.0})
     # ... and with queue tooling giving waiting retries back while they wait
     # (in-memory only: on Redis a short-lived consumer's finish() can strand a prefetched message - C01's known finding -
     # which would end a chain for a reason that is not this property's)
@@ -153,7 +158,7 @@ async def scenario(loop, case, out, stats, fps, samples):
             id_ = f"j{i:03d}"
             kw = dict(retries=N, timeout=timedelta(seconds=1), store_result=False)
             if case["rec"]:
-                kw["deferred_by"] = timedelta(seconds=PERIOD)
+                kw["deferred_by"] = timedelta(seconds=case.get("period", PERIOD))
             await w.job("act", id_, {"by_attempt": steps}, **kw).enqueue()
             jobs[id_] = pat
         # horizon: sum of back-offs of the longest chain + timeouts + period
@@ -284,7 +289,8 @@ async def scenario(loop, case, out, stats, fps, samples):
                     pass  # the next scheduling is already under way; its own chain is not judged here
                 elif fin.get("op") != "requeue":
                     out.append(V("wrong_final_place", kind, ctx, f"{id_} recurring, pattern {pat}: first scheduling ended with {fin.get('op')} instead of a reschedule"))
-                elif place not in (["delayed"],) and not any(e["k"] == "actor_start" and e["n"] > first_final_n for e in es):
+                elif place not in ((["delayed"], ["waiting"]) if case.get("period", PERIOD) <= 2 else (["delayed"],)) and not any(e["k"] == "actor_start" and e["n"] > first_final_n for e in es):
+                    # (with a one-second period the successor may be due - and waiting - by the time the state is looked at)
                     out.append(V("wrong_final_place", kind, ctx, f"{id_} recurring: after the reschedule the message is at {place}"))
                 elif st is not None and st[1] is not None and place == ["delayed"] and st[1]["tried"] != 0:
                     out.append(V("wrong_final_place", kind, ctx, f"{id_} recurring successor carries already_tried={st[1]['tried']}"))
